@@ -67,6 +67,10 @@ def gen(rng, tier):
         add(v, "perturbed")
     for t in ["", "0x", "0X" + good[2:], " " + good, good + " ", good + "\n", "0x0x" + good[2:], "1b", "0x1b"]:
         add(t, "malformed", nt=False)
+    # the four recovery ids a Signature value can carry (from_parts): the text ends in 1b / 1c by bit 0 alone
+    for rid in (0, 1, 2, 3):
+        for _ in range(3):
+            cases.append(Case("sig.print %064x %064x %d" % (rng.randrange(1, 0xFFFFFFFFFFFFFFFFFFFFFFFFFFFFFFFEBAAEDCE6AF48A03BBFD25E8CD0364141), rng.randrange(1, 0xFFFFFFFFFFFFFFFFFFFFFFFFFFFFFFFEBAAEDCE6AF48A03BBFD25E8CD0364141), rid), tags=("recovery-id", "rid:%d" % rid)))
     # scalars with a zero byte at each position 0..31 (printing assembles r and s from bytes / words)
     NN0 = 0xFFFFFFFFFFFFFFFFFFFFFFFFFFFFFFFEBAAEDCE6AF48A03BBFD25E8CD0364141
     for pos in range(32):
@@ -101,10 +105,10 @@ def gen(rng, tier):
     # (v = 27 + parity there, whatever v the signed transaction itself carries), and it feeds `hash transaction --signature`
     from vlib import bip39 as _b39
     mn_ = hx(" ".join(_b39.rand_phrase(rng, 12)))
-    for kind, chain in (("legacy", "absent"), ("legacy", 1), ("legacy", 1337), ("legacy", 2 ** 64 - 1), ("legacy", 2 ** 255 - 19), ("eip2930", None), ("eip1559", None)):
+    for kind, chain in (("legacy", "absent"), ("legacy", 0), ("legacy", 1), ("legacy", 1337), ("legacy", 2 ** 64 - 1), ("legacy", 2 ** 255 - 19), ("eip2930", None), ("eip2930", 0), ("eip1559", None)):
         for _ in range(3 if tier == "thorough" else 2):
             j, _e = txgen.rand_tx(rng, kind=kind, chain=chain)
-            cases.append(Case("cli.sign_tx %s - default %s 1 %d" % (mn_, hx(j), 1 if chain == "absent" else rng.randrange(2)), tags=("interop", "signature-only", "kind:" + kind), runner="cli", meta={"via": {}, "via_file": False}))
+            cases.append(Case("cli.sign_tx %s - default %s 1 %d" % (mn_, hx(j), 1 if chain == "absent" else _ % 2), tags=("interop", "signature-only", "kind:" + kind), runner="cli", meta={"via": {}, "via_file": False}))
     # ... and texts that denote no signature are refused by the command too (the empty text included: an option that is given
     # is a signature, not "none")
     jj, _e = txgen.rand_tx(rng, kind="legacy", chain=1)
